@@ -361,8 +361,55 @@ Fixpoint c10_ok (prev : snap) (tr : list (op * step_obs)) : bool :=
   end.
 Definition spec_c10 (k : sys_case) : bool := negb (sk_fatal k) && c10_ok (start_snap k) (sk_trace k).
 
+(** ---- C19: eviction ---- *)
+(** last time each (type, name) was looked up or (failing that) first cached, from the history and
+    the snapshots alone; [clock] is the logical time of the step *)
+Definition acc_key (t : rtype) (n : string) : string := String (ascii_of_N (48 + type_index t)) n.
+
+Fixpoint c19_ok (prev : snap) (clock : N) (acc : list (string * N)) (tr : list (op * step_obs)) : bool :=
+  match tr with
+  | [] => true
+  | (x, ob) :: r =>
+      let sn := so_snap ob in
+      let clock1 := match x with OTick d => clock + d | _ => clock end in
+      (* entries that appear in the cache get a first-seen time unless known *)
+      let seen := fold_left (fun a t => fold_left (fun a2 kv => if amem (acc_key t (fst kv)) a2 then a2 else aset (acc_key t (fst kv)) clock1 a2)
+                                                  (snap_cache sn t) a) data_types acc in
+      let acc1 := match x with
+                  | OLookup t n => if amem n (snap_cache prev t) || amem (acc_key t n) seen then aset (acc_key t n) clock1 seen else seen
+                  | OBackdate t n d => match aget (acc_key t n) seen with Some tm => aset (acc_key t n) (tm - d) seen | None => seen end
+                  | _ => seen
+                  end in
+      match x with
+      | OSweep =>
+          forallb (fun t =>
+            forallb (fun kv =>
+              let n := fst kv in
+              match aget (acc_key t n) acc with
+              | Some tm =>
+                  if negb (is_reserved t n) && N.ltb (tm + expire_ms) clock
+                  then (* idle: removed, withdrawn from the interest set, and a request without it was sent *)
+                       negb (amem n (snap_cache sn t)) &&
+                       negb (smem n (match snap_watched sn t with Some l => l | None => [] end)) &&
+                       existsb (fun sq => rtype_eqb (q_type (snd sq)) t && negb (smem n (q_names (snd sq)))) (so_reqs ob)
+                  else (* used within the period, or reserved: stays *)
+                       amem n (snap_cache sn t) && smem n (match snap_watched sn t with Some l => l | None => [] end)
+              | None => true
+              end) (snap_cache prev t) &&
+            (* nothing appears, and the last request of the type lists exactly the remaining interest *)
+            ssub (map fst (snap_cache sn t)) (map fst (snap_cache prev t)) &&
+            match filter (fun sq => rtype_eqb (q_type (snd sq)) t) (so_reqs ob) with
+            | [] => opt_eqb names_eqb (snap_watched prev t) (snap_watched sn t)
+            | qs => opt_eqb names_eqb (Some (q_names (snd (last qs (0, mk_request init_state t false))))) (snap_watched sn t)
+            end) data_types
+      | OTick _ | OBackdate _ _ _ => snap_same_data prev sn
+      | _ => true
+      end && c19_ok sn clock1 acc1 r
+  end.
+Definition spec_c19 (k : sys_case) : bool := negb (sk_fatal k) && c19_ok (start_snap k) 1000000 [] (sk_trace k).
+
 (** result: the agreement components and the specs *)
-Definition sys_check (k : sys_case) : agreement * (bool * bool * bool * bool * bool) :=
+Definition sys_check (k : sys_case) : agreement * (bool * bool * bool * bool * bool * bool) :=
   (if sk_fatal k then {| ag_cache := false; ag_lookup := false; ag_reqs := false; ag_watched := false; ag_acks := false; ag_table := false; ag_closed := false |}
    else
      let '(s0, outs) := run (sk_cfg k) (sk_oracle k) init_state (sk_startup k) in
@@ -374,4 +421,4 @@ Definition sys_check (k : sys_case) : agreement * (bool * bool * bool * bool * b
                              ag_table := table_agrees s0 (so_snap ob); ag_closed := Bool.eqb (s_closed s0) (sn_closed (so_snap ob)) |}
              end)
             (agree_trace (sk_cfg k) (sk_oracle k) s0 (sk_trace k)),
-   (spec_c01 k, spec_c02 k, spec_c03 k, spec_c04 k, spec_c10 k)).
+   (spec_c01 k, spec_c02 k, spec_c03 k, spec_c04 k, spec_c10 k, spec_c19 k)).
